@@ -34,6 +34,7 @@ type Case struct {
 	Pos    Position `json:"pos"`
 	Signer string   `json:"signer"`
 	Reader string   `json:"reader"` // "read": bug.Read in the repository; "merge": identity+bug MergeAll on a second repository
+	Kind   string   `json:"kind,omitempty"` // "": commit with an operation; "join": two-parent commit with an empty pack, as merge() writes it
 }
 
 func (c Case) ID() string { b, _ := json.Marshal(c); return string(b) }
@@ -66,7 +67,7 @@ func (r *runner) Run(caseID string) Obs {
 	if err := os.MkdirAll(dir, 0o755); err != nil {
 		return Obs{Harness: err.Error()}
 	}
-	b, err := Build(dir, r.keys, c.H, c.Pos, c.Signer)
+	b, err := Build(dir, r.keys, c.H, c.Pos, c.Signer, c.Kind)
 	if err != nil {
 		return Obs{Harness: "build: " + err.Error()}
 	}
@@ -190,6 +191,8 @@ func signerClass(c Case) string {
 	}
 	cur := sets[c.Pos.J]
 	switch c.Signer {
+	case "in-force":
+		return "in-force-key"
 	case "nobody", "altered-tree", "altered-parent":
 		return c.Signer
 	case "K3":
@@ -255,6 +258,9 @@ type Finding struct{ Oracle, Sig, Detail string }
 // situation describes the case without positions: what the statement's verdict depends on.
 func situation(c Case, exp *Expected) string {
 	s := "signer=" + signerClass(c)
+	if c.Kind == "join" {
+		s = "commit=join(empty pack) " + s
+	}
 	if exp != nil {
 		if exp.InForce > 0 {
 			s += " keys-in-force"
@@ -352,6 +358,15 @@ func Main(args []string) {
 					cases = append(cases, Case{H: h, Pos: pos, Signer: signer, Reader: reader})
 				}
 			}
+			// the tested commit as a join commit with an empty pack
+			for _, signer := range JoinSigners {
+				for _, reader := range []string{"read", "merge"} {
+					if tier != "thorough" && len(h) == 3 && (reader == "merge" || signer == "altered-tree") && signer != "nobody" && signer != "in-force" {
+						continue // quick tier, histories of three changes: second reader with two signers, first reader without the second alteration
+					}
+					cases = append(cases, Case{H: h, Pos: pos, Signer: signer, Reader: reader, Kind: "join"})
+				}
+			}
 		}
 	}
 	budget := 170 * time.Second
@@ -371,7 +386,7 @@ func Main(args []string) {
 	bySigner := map[string]int{}
 	outcomes := map[string]bool{}
 	var samples []any
-	executed, skipped, crashes, harnessErrs, unspecified := 0, 0, 0, 0, 0
+	executed, skipped, crashes, harnessErrs, unspecified, joinCases := 0, 0, 0, 0, 0, 0
 	expAccept, expReject, boundary := 0, 0, 0
 	exhaustive := true
 	const batch = 2000
@@ -407,6 +422,9 @@ func Main(args []string) {
 				continue
 			}
 			executed++
+			if c.Kind == "join" {
+				joinCases++
+			}
 			bySigner[signerClass(c)]++
 			v := obs.Verdict
 			if res.Crashed {
@@ -483,13 +501,15 @@ func Main(args []string) {
 	cov := map[string]any{
 		"evaluations":         executed,
 		"distinct_nontrivial": len(outcomes),
-		"rule":                "a case is (identity history, position of the tested commit, signer, reader) built with git-bug and read in a worker subprocess; distinct non-trivial = number of distinct (signer's relation to the history, keys in force or not, commit at a version's own logical time or not, reader, observed verdict) combinations",
+		"rule":                "a case is (identity history, position of the tested commit, kind of tested commit: with an operation / join commit with an empty pack, signer, reader) built with git-bug and read in a worker subprocess; distinct non-trivial = number of distinct (kind of tested commit, signer's relation to the history, keys in force or not, commit at a version's own logical time or not, reader, observed verdict) combinations",
 		"exhaustive":          exhaustive && harnessErrs == 0,
 		"planned_cases":       len(cases),
 		"histories":           len(histories),
 		"max_changes":         *maxLen,
 		"alphabet":            Alphabet,
 		"signers":             Signers,
+		"join_commit_signers": JoinSigners,
+		"join_commit_cases":   joinCases,
 		"not_applicable":      skipped,
 		"observed_verdicts":   verdicts,
 		"cases_per_signer":    bySigner,
@@ -507,6 +527,7 @@ func Main(args []string) {
 			"a key introduced by a version recorded at time T is in force for a commit at T (the statement's boundary), so an unsigned commit made at the logical time the key-adding version records is expected to be rejected",
 			"RSA keys are generated once and kept in harness/props/c08/testdata/keys.json; signatures embed the wall clock, so commit hashes differ between runs while verdicts do not",
 			"altered commits: the operation pack text (tree) or the parent list is changed after signing, the signature header is kept (written with go-git plumbing on the same directory)",
+			"join commits are written with the exported calls operationPack.Write makes for merge() (StoreData, StoreTree, Increment, StoreSignedCommit/StoreCommit): two parents (two concurrent commits of a key-less second author), pack {author, ops:null} in the name of the identity under test",
 			fmt.Sprintf("bounded: keys {K1,K2} plus a stranger's K3, at most %d identity changes, one tested commit per case", *maxLen),
 		},
 		WallS: time.Since(start).Seconds(), Violations: rep.Viol, Known: known}
